@@ -494,6 +494,7 @@ func cmdGrammar(args []string) {
 var cntKinds = []string{"cnt-1", "cnt+1", "cntfd", "cntfe", "cntffmax", "cntffbig", "cntneg", "cntwrap", "vec+1", "vec-1"}
 var lenKinds = []string{"lenover1", "lenfd", "lenfe", "lenff"}
 var valKinds = []string{"val+1", "val+2", "val-1", "valfd", "valfe", "valff"}
+var bigKinds = []string{"x63m0", "x63m1", "x63m8", "x63m80", "x63m89", "x63m100", "x63", "x62"}
 var frameKinds = []string{"badmagic", "badsum", "oversize", "encflag", "encflag0", "lenover1", "cmdfull"}
 
 // alphabet derives every payload class of every command from the grammar (the same derivation as Classes(cmd) in spec/P2P.tla).
@@ -531,6 +532,9 @@ func alphabet(w *World) (out []Class) {
 				try(k, f)
 			}
 			for _, k := range valKinds {
+				try(k, f)
+			}
+			for _, k := range bigKinds {
 				try(k, f)
 			}
 		}
